@@ -46,6 +46,26 @@ CLAIMED = {
         text="Bounded: every result of &, |, only, exclude, without_extras and parse_marker(str(m)) over the explored operand pairs is empty, universal, an atom/atom group, or a compound with >= 2 distinct children none empty/universal/same-kind; plus all-path rules: `of` exits and polarity, each compound constructor flattens its own class. Arbitrary trees are not decided.",
         note="trusts: PEP 440/508 model; vocabulary bound",
         ref="DESIGN.md §4 C15", thorough=True),
+    "C08": dict(
+        technique="static analysis: partial evaluation of EnvSpec._evaluate_python from source with requires_python symbolic (forking symbolic booleans); residual decision table vs the PEP 425/3149/703 rule table",
+        text="Complete over the static tag vocabulary: for every (implementation, python tag, abi tag) the residual is None or `None if empty(TEMPLATE & requires_python) else score`; the TEMPLATE's admitted interpreters (PEP 440 model over majors 2-4 x minors 0-22) and the score equal the rule table C08 states; requires_python can only flow into that emptiness guard (operation whitelist); compatibility() is the max over combinations. Non-emptiness of TEMPLATE & requires_python itself is C01/C05's.",
+        note="trusts: rule table transcribed from C08/PEP 425/3149/703; PEP 440 model for template meaning",
+        ref="DESIGN.md §4 C08", thorough=False),
+    "C09": dict(
+        technique="static analysis: abstract interpretation of Platform.compatible_tags and the Arch tables from source for every platform of the property's grid, compared with an independent PEP 600/656/macOS tag generator",
+        text="Complete over the property's grid (manylinux 2.5..2.50 x 9 architectures, musllinux 1.1..1.5 x 8, macOS 10.4..10.16 and 11..30, Windows x 3): exact tag sequence for manylinux/macOS (fat* ignored), sets for musllinux/Windows; architecture floors and binary formats per enum member; _evaluate_platform scoring strictly decreasing with `any` last.",
+        note="trusts: the PEP rule generator in vsa/props/c09.py (written from the PEPs as C09 states them)",
+        ref="DESIGN.md §4 C09", thorough=False),
+    "C16": dict(
+        technique="static analysis: abstract interpretation of EnvSpec.compare / compatible_tags from source over a spec grid (order-theoretic laws, tag-set nesting) + symbolic residual form of _evaluate_python for requires_python monotonicity",
+        text="Over the grid (requires_python x 18 platforms x 4 implementations, all ordered pairs): compare is reflexive, INCOMPATIBLE symmetric, never HIGHER both ways, and LOWER_OR_EQUAL/HIGHER imply the interpreted tag sets are nested; every _evaluate_python residual uses requires_python only as a negative emptiness guard with an independent score (monotone given C01); tag sets are nested along consecutive releases of every family/architecture of C09's grid.",
+        note="trusts: PEP 440 model; specifier algebra exactness (C01/C05)",
+        ref="DESIGN.md §4 C16", thorough=True),
+    "C18": dict(
+        technique="static analysis: abstract interpretation of parse_wheel_tags / Platform.parse / __str__ / Arch.parse from source over grids of name shapes; aliases read from the docstring AST",
+        text="Structural clauses only: on a grid of PEP 427 file-name shapes parse_wheel_tags equals the PEP 427 split and malformed names raise InvalidWheelFilename (TagsError+ValueError); every Platform.choices() entry parses, documented aliases resolve to their targets, Platform.parse(str(p)) == p on the family table. Agreement with packaging.utils.parse_wheel_filename on name/version validation is not decided.",
+        note="trusts: PEP 427 split; docstring as the alias documentation",
+        ref="DESIGN.md §4 C18", thorough=True),
 }
 
 NOT_APPLICABLE = {
